@@ -435,34 +435,37 @@ func boundaryU64(t *rapid.T, label string) uint64 {
 	return rapid.Uint64().Draw(t, label) >> uint(sh)
 }
 
-func TestPropRoundTrip(t *testing.T) {
-	rtProp.Rapid(t, func(t *rapid.T) RoundTripCase {
-		k := rapid.SampledFrom([]string{"uint", "array", "bytes", "text"}).Draw(t, "kind")
-		c := RoundTripCase{Kind: k}
-		switch k {
-		case "uint":
-			c.U = boundaryU64(t, "u")
-		case "array":
-			c.U = boundaryU64(t, "u") >> 1 // EncodeArrayHeader takes a non-negative int
-		default:
-			l := rapid.SampledFrom([]int{0, 1, 22, 23, 24, 25, 254, 255, 256, 257, 65534, 65535, 65536, 65537, 63, 64, 65, 127, 128, 129, 511, 512, 513, 4095, 4096, 4097}).Draw(t, "len")
-			if rapid.Bool().Draw(t, "randlen") {
-				l = rapid.IntRange(0, 300).Draw(t, "len2")
-			}
-			b := make([]byte, l)
-			fill := rapid.SliceOfN(rapid.Byte(), 0, 8).Draw(t, "fill")
-			for i := range b {
-				b[i] = 'a' + byte(i%7)
-			}
-			if k == "bytes" || rapid.IntRange(0, 3).Draw(t, "rawtext") == 0 {
-				copy(b, fill)
-			} else if l >= 4 && rapid.Bool().Draw(t, "mb") {
-				copy(b[l-4:], "\xf0\x9f\x8c\x90")
-			}
-			c.Str = b
+func TestPropRoundTrip(t *testing.T) { rtProp.Rapid(t, genPropRoundTrip) }
+
+// TestConcRoundTrip: batches of cases evaluated at the same time on separate goroutines (vh.Prop.Concurrent).
+func TestConcRoundTrip(t *testing.T) { rtProp.Concurrent(t, genPropRoundTrip, 8, 3) }
+
+func genPropRoundTrip(t *rapid.T) RoundTripCase {
+	k := rapid.SampledFrom([]string{"uint", "array", "bytes", "text"}).Draw(t, "kind")
+	c := RoundTripCase{Kind: k}
+	switch k {
+	case "uint":
+		c.U = boundaryU64(t, "u")
+	case "array":
+		c.U = boundaryU64(t, "u") >> 1 // EncodeArrayHeader takes a non-negative int
+	default:
+		l := rapid.SampledFrom([]int{0, 1, 22, 23, 24, 25, 254, 255, 256, 257, 65534, 65535, 65536, 65537, 63, 64, 65, 127, 128, 129, 511, 512, 513, 4095, 4096, 4097}).Draw(t, "len")
+		if rapid.Bool().Draw(t, "randlen") {
+			l = rapid.IntRange(0, 300).Draw(t, "len2")
 		}
-		return c
-	})
+		b := make([]byte, l)
+		fill := rapid.SliceOfN(rapid.Byte(), 0, 8).Draw(t, "fill")
+		for i := range b {
+			b[i] = 'a' + byte(i%7)
+		}
+		if k == "bytes" || rapid.IntRange(0, 3).Draw(t, "rawtext") == 0 {
+			copy(b, fill)
+		} else if l >= 4 && rapid.Bool().Draw(t, "mb") {
+			copy(b[l-4:], "\xf0\x9f\x8c\x90")
+		}
+		c.Str = b
+	}
+	return c
 }
 
 func TestExhaustiveRoundTripBoundaries(t *testing.T) {
@@ -673,49 +676,52 @@ var shadowStream = func() []byte {
 	return out
 }()
 
-func TestPropStream(t *testing.T) {
-	streamProp.Rapid(t, func(t *rapid.T) StreamCase {
-		n := rapid.IntRange(1, 6).Draw(t, "n")
-		var c StreamCase
-		for i := 0; i < n; i++ {
-			major := rapid.SampledFrom([]int{0, 0, 2, 3, 4, 5, 1, 6, 7}).Draw(t, "major")
-			var arg uint64
-			if major == 2 || major == 3 {
-				arg = uint64(rapid.SampledFrom([]int{0, 1, 5, 23, 24, 255, 256, 300, 64, 65, 128, 129, 512, 513, 4097}).Draw(t, "len"))
-			} else {
-				arg = boundaryU64(t, "arg")
-			}
-			min := refcbor.MinWidth(arg)
-			ws := []int{}
-			for _, w := range []int{0, 1, 2, 4, 8} {
-				if w >= min {
-					ws = append(ws, w)
-				}
-			}
-			w := min
-			if rapid.IntRange(0, 2).Draw(t, "nonshortest") == 0 {
-				w = rapid.SampledFrom(ws).Draw(t, "w")
-			}
-			fill := byte('x')
-			if major == 3 && rapid.IntRange(0, 5).Draw(t, "bad") == 0 {
-				fill = 0xfe
-			}
-			c.Items = append(c.Items, StreamItem{Major: major, Arg: arg, Width: w, Fill: fill})
-			m := map[int]string{0: "uint", 2: "bytes", 3: "text", 4: "array", 5: "map"}[major]
-			if m == "" || rapid.IntRange(0, 7).Draw(t, "mismatch") == 0 {
-				m = rapid.SampledFrom(methods).Draw(t, "method")
-			}
-			c.Calls = append(c.Calls, m)
+func TestPropStream(t *testing.T) { streamProp.Rapid(t, genPropStream) }
+
+// TestConcStream: batches of cases evaluated at the same time on separate goroutines (vh.Prop.Concurrent).
+func TestConcStream(t *testing.T) { streamProp.Concurrent(t, genPropStream, 8, 3) }
+
+func genPropStream(t *rapid.T) StreamCase {
+	n := rapid.IntRange(1, 6).Draw(t, "n")
+	var c StreamCase
+	for i := 0; i < n; i++ {
+		major := rapid.SampledFrom([]int{0, 0, 2, 3, 4, 5, 1, 6, 7}).Draw(t, "major")
+		var arg uint64
+		if major == 2 || major == 3 {
+			arg = uint64(rapid.SampledFrom([]int{0, 1, 5, 23, 24, 255, 256, 300, 64, 65, 128, 129, 512, 513, 4097}).Draw(t, "len"))
+		} else {
+			arg = boundaryU64(t, "arg")
 		}
-		if rapid.IntRange(0, 3).Draw(t, "extra") == 0 {
-			c.Calls = append(c.Calls, rapid.SampledFrom(methods).Draw(t, "extracall"))
+		min := refcbor.MinWidth(arg)
+		ws := []int{}
+		for _, w := range []int{0, 1, 2, 4, 8} {
+			if w >= min {
+				ws = append(ws, w)
+			}
 		}
-		c.Chunk = rapid.SampledFrom([]int{0, 0, 1, 3, -1, -1, -2, -3, -5, chunkBuffer, chunkBuffer, chunkSeekAdvanced, chunkBufio, chunkBufio, gen.SourceFile, gen.SourceFileAdvanced, gen.SourcePipe}).Draw(t, "chunk")
-		if rapid.IntRange(0, 3).Draw(t, "docut") == 0 {
-			c.Cut = rapid.IntRange(1, 12).Draw(t, "cut")
+		w := min
+		if rapid.IntRange(0, 2).Draw(t, "nonshortest") == 0 {
+			w = rapid.SampledFrom(ws).Draw(t, "w")
 		}
-		return c
-	})
+		fill := byte('x')
+		if major == 3 && rapid.IntRange(0, 5).Draw(t, "bad") == 0 {
+			fill = 0xfe
+		}
+		c.Items = append(c.Items, StreamItem{Major: major, Arg: arg, Width: w, Fill: fill})
+		m := map[int]string{0: "uint", 2: "bytes", 3: "text", 4: "array", 5: "map"}[major]
+		if m == "" || rapid.IntRange(0, 7).Draw(t, "mismatch") == 0 {
+			m = rapid.SampledFrom(methods).Draw(t, "method")
+		}
+		c.Calls = append(c.Calls, m)
+	}
+	if rapid.IntRange(0, 3).Draw(t, "extra") == 0 {
+		c.Calls = append(c.Calls, rapid.SampledFrom(methods).Draw(t, "extracall"))
+	}
+	c.Chunk = rapid.SampledFrom([]int{0, 0, 1, 3, -1, -1, -2, -3, -5, chunkBuffer, chunkBuffer, chunkSeekAdvanced, chunkBufio, chunkBufio, gen.SourceFile, gen.SourceFileAdvanced, gen.SourcePipe}).Draw(t, "chunk")
+	if rapid.IntRange(0, 3).Draw(t, "docut") == 0 {
+		c.Cut = rapid.IntRange(1, 12).Draw(t, "cut")
+	}
+	return c
 }
 
 // ------------------------------------------------------------------- calls after a failed call
